@@ -405,6 +405,13 @@ func TestVerifReplayLeafVariants(t *testing.T) {
 		str := func(s string, ts uint64) *sdcpb.TypedValue {
 			return &sdcpb.TypedValue{Timestamp: ts, Value: &sdcpb.TypedValue_StringVal{StringVal: s}}
 		}
+		ll := func(xs ...string) *sdcpb.TypedValue {
+			var el []*sdcpb.TypedValue
+			for _, x := range xs {
+				el = append(el, str(x, 0))
+			}
+			return &sdcpb.TypedValue{Value: &sdcpb.TypedValue_LeaflistVal{LeaflistVal: &sdcpb.ScalarArray{Element: el}}}
+		}
 		for _, c := range []struct {
 			name            string
 			intent, running *sdcpb.TypedValue
@@ -415,6 +422,9 @@ func TestVerifReplayLeafVariants(t *testing.T) {
 			{"string with a timestamp against the same string without", str("x", 1700000000), str("x", 0), false},
 			{"string x against string y", str("x", 0), str("y", 0), true},
 			{"string x against string x", str("x", 0), str("x", 0), false},
+			{"leaf-list [a b a] against leaf-list [a b a]", ll("a", "b", "a"), ll("a", "b", "a"), false},
+			{"leaf-list [a b] against leaf-list [a b]", ll("a", "b"), ll("a", "b"), false},
+			{"leaf-list [a b a] against leaf-list [a b b]", ll("a", "b", "a"), ll("a", "b", "b"), true},
 		} {
 			rep.cases[fnU]++
 			ib, _ := proto.Marshal(c.intent)
